@@ -654,30 +654,23 @@ class Exec:
     def e_BinOp(self, node, fr):
         return self.binop(node.op, self.eval(node.left, fr), self.eval(node.right, fr), node)
 
-    PURE_CALLS = {"fabs", "abs", "float"}
-
-    def _may_have_events(self, n) -> bool:
-        """can evaluating this operand raise, branch or take a root?  (syntactic, conservative)"""
-        for x in ast.walk(n):
-            if isinstance(x, (ast.Div, ast.Pow, ast.IfExp, ast.Subscript)):
-                return True
-            if isinstance(x, ast.Call) and not (isinstance(x.func, ast.Name) and x.func.id in self.PURE_CALLS):
-                return True
-        return False
-
     def e_BoolOp(self, node, fr):
+        """and / or.  An operand whose evaluation raises, branches or takes a root is evaluated by Python only if the
+        operands before it do not decide: in that case the accumulated condition is decided first (path split) and
+        the operand is re-evaluated on the continuing path; operands without such events are combined symbolically."""
         is_and = isinstance(node.op, ast.And)
         acc = None
         for i, vnode in enumerate(node.values):
-            if acc is not None and self._may_have_events(vnode):
-                # the operand may raise / branch: Python evaluates it only if the operands so far do not decide
+            mark = (len(self.events), self.nbranch, len(self.decisions))
+            v = self.eval(vnode, fr)
+            if acc is not None and len(self.events) != mark[0]:
+                del self.events[mark[0]:]
+                self.nbranch = mark[1]
+                del self.decisions[mark[2]:]
                 if self.decide(acc, vnode) != is_and:
                     return BoolV(("F",)) if is_and else BoolV(("T",))
                 acc = None
-            n_events = len(self.events)
-            v = self.eval(vnode, fr)
-            if i > 0 and len(self.events) != n_events and acc is not None:
-                self.err(vnode, "guard or branch inside a short-circuited operand")
+                v = self.eval(vnode, fr)
             if isinstance(v, bool) or v is None:
                 if bool(v) != is_and:  # False in `and` / True in `or` decides
                     if acc is None:
